@@ -750,6 +750,13 @@ def work_rg(chunk_id, payload):
                                     for _ in range(F)] for a_ in range(ar * p)])
                 marg = "@a%d %d %d @m%d %d %d" % (i, ar, p, i, p, p)
             pv = "$p%d" % i
+            if flavour == "vector" and rng.random() < 0.3:
+                # an unknown whose initial guess is this vector: the solver
+                # evaluates the guess at every calibration frequency, so the
+                # guess's range is the standard's range
+                s.op("w%d=vnacal_make_unknown_parameter $vc $p%d" % (i, i))
+                pv = "$w%d" % i
+                flavour = "unknown-with-vector-guess"
             if entry.startswith("single_reflect"):
                 ln = s.op("vnacal_new_add_%s $vn %s %s %d" % (
                     entry, marg, pv, int(rng.integers(1, 3))))
@@ -847,6 +854,9 @@ def work_rg(chunk_id, payload):
             if d["flavour"] == "correlated":
                 fn += "[correlated-sigma-grid]"
                 bump(part, "rg_correlated_sigma_decisions")
+            elif d["flavour"] == "unknown-with-vector-guess":
+                fn += "[unknown-with-vector-guess]"
+                bump(part, "rg_unknown_vector_guess_decisions")
             judged = (order == "freq_first") or d["what"] == "set"
             if not judged:
                 # add before the frequency vector: nothing to compare with yet
@@ -983,7 +993,8 @@ def work_nz(chunk_id, payload):
                     (lambda a, b, x: (lambda M: nf(x) * a + tr(x) * np.abs(M) * b))(
                         n1, n2, sc.freqs[f]))
         n = 2 if k % 3 == 0 else int(rng.integers(2, 13))
-        lo = fa - span * rng.uniform(0.0, 0.3)
+        # (a grid that starts below 0 Hz is refused for that reason alone)
+        lo = max(fa - span * rng.uniform(0.0, 0.3), 0.2 * fa)
         hi = fb + span * rng.uniform(0.0, 0.3)
         if rng.random() < 0.25:
             lo = fa
@@ -1159,7 +1170,8 @@ def work_cs(chunk_id, payload):
                                                        np.sqrt(2))
                         for f in range(F)]
         n = int(rng.integers(2, 7))
-        lo = fa - span * rng.uniform(0.0, 0.3)
+        # (a grid that starts below 0 Hz is refused for that reason alone)
+        lo = max(fa - span * rng.uniform(0.0, 0.3), 0.2 * fa)
         hi = fb + span * rng.uniform(0.0, 0.3)
         if rng.random() < 0.25:
             lo = fa
